@@ -17,6 +17,7 @@ import subprocess
 import sys
 
 VERIF = os.path.dirname(os.path.dirname(os.path.abspath(__file__)))
+REPO = os.environ.get('PICOTOOL_REPO', '/repo')      # the tree the checks look at (a second checkout allows evaluating in parallel)
 PY = '/venv/bin/python'
 
 
@@ -63,7 +64,7 @@ def main():
         shutil.rmtree(wt, ignore_errors=True)
     result['checks'] = {}
     if result.get('patch_applies'):
-        rca, outa = sh(['git', '-C', '/repo', 'apply', os.path.abspath(patch)])
+        rca, outa = sh(['git', '-C', REPO, 'apply', os.path.abspath(patch)])
         try:
             if rca == 0:
                 for c in checks:
@@ -77,7 +78,7 @@ def main():
                         entry['replay_what'] = (rep.get('what') or str(rep.get('theorem') or rep.get('correspondence')))[:400]
                     result['checks'][c] = entry
         finally:
-            sh(['git', '-C', '/repo', 'checkout', '--', '.'])
+            sh(['git', '-C', REPO, 'checkout', '--', '.'])
     dst = os.path.join(VERIF, 'seeded', name)
     os.makedirs(dst, exist_ok=True)
     shutil.copy(patch, os.path.join(dst, 'patch.diff'))
